@@ -3,6 +3,7 @@ from core import strip, is_field, key_mentions, order_ge, key_str
 from facts import AnalysisBroken
 from rules import (field_load, check_init, nodeset, ev, Unevaluable, forced_edges, atom_from, reach, atomic_ops, ret_const, is_var_load)
 from props import c01
+from props import deps
 
 EXPLANATION = (
     "Decides the arrival protocol's structure: one atomic fetch-add per arrival; the arrival whose number is a multiple "
@@ -25,6 +26,8 @@ def run(ctx):
     c01.core_dependency(ctx, P, "core.dep", ('fiber_manager_wait_in_mpsc_queue', 'fiber_manager_wait_in_mpsc_queue_and_unlock', 'fiber_manager_wake_from_mpsc_queue'),
                         "the barrier's sleep/wake path (wait_in_mpsc_queue / wake_from_mpsc_queue)",
                         'an arrival that is never rescheduled leaves the round incomplete for ever')
+    deps.depend(ctx, P, 'C15', 'queue.dep', "the barrier's waiter queues (mpsc_fifo)",
+                'an arrival that the queue drops is never released', lambda x: x.rule.startswith(("mpsc.", "mpsc_fifo.")) or x.fn == "mpsc_fifo_init")
     f = P.fn("fiber_barrier_wait")
     ops = atomic_ops(f, B, "counter")
     o = ctx.ob("arrive", f, "one atomic fetch-add of 1 on `counter`; the serial path is taken exactly when (old+1) % count == 0; it returns "
